@@ -42,6 +42,8 @@ theorem handle_node_eq (lay : Mode → P → Cfg) (fl : Flags) (pre : List Strin
     simp [isStr_self, lookup_settled_other h _ cfg n hnd']
   have hs' : okSec (lookup n (prunedK (subKeys (names choices) cfg) (.str n) (settled h (.str n) cfg))) = true := by
     rw [hl]; exact hs
+  rw [hl, (checkSettings_okSec (pre ++ [n]) (lookup n cfg)).2 hs]
+  simp only []
   rw [mergeLayer_ok fl.mode _ n _ hm hs', hl]
   simp only [lookup_insert_same, secOf_sec]
   cases handle lay fl (pre ++ [n]) q (merge (secOf (lookup n cfg)) (lay fl.mode q)) with
@@ -180,7 +182,9 @@ theorem getSub_cfg (h : SubHdr) (ns : List String) (fl : Flags) (pre : List Stri
     · cases hok; rfl
     · split at hok
       · cases hok
-      · cases hok; rfl
+      · split at hok
+        · cases hok
+        · cases hok; rfl
   · cases hok; rfl
 
 theorem getSub_frame (h : SubHdr) (ns : List String) (fl : Flags) (pre : List String) (cfg : Cfg) (r : GetRes)
@@ -229,16 +233,20 @@ theorem handleEach_frame (lay : Mode → P → Cfg) (fl : Flags) (pre : List Str
     have hkr : ¬ k ∈ names rest := fun e => hk (by simp [names] at e ⊢; exact Or.inr e)
     rw [handleEach] at hok
     split at hok
-    · cases hml : mergeLayer fl.mode (lay fl.mode q) m cfg with
-      | error e => simp [hml] at hok
-      | ok cfg1 =>
-        simp only [hml] at hok
-        cases hin : handle lay fl (pre ++ [m]) q (secOf (lookup m cfg1)) with
-        | error e => simp [hin] at hok
-        | ok inner =>
-          simp only [hin] at hok
-          rw [handleEach_frame lay fl pre todo k rest _ c' hkr hok, writeBack_frame m inner cfg1 k hkm]
-          exact mergeLayer_frame fl.mode _ m cfg cfg1 hml k hkm
+    · cases hcs : checkSettings (pre ++ [m]) (lookup m cfg) with
+      | error e => simp [hcs] at hok
+      | ok u =>
+        simp only [hcs] at hok
+        cases hml : mergeLayer fl.mode (lay fl.mode q) m cfg with
+        | error e => simp [hml] at hok
+        | ok cfg1 =>
+          simp only [hml] at hok
+          cases hin : handle lay fl (pre ++ [m]) q (secOf (lookup m cfg1)) with
+          | error e => simp [hin] at hok
+          | ok inner =>
+            simp only [hin] at hok
+            rw [handleEach_frame lay fl pre todo k rest _ c' hkr hok, writeBack_frame m inner cfg1 k hkm]
+            exact mergeLayer_frame fl.mode _ m cfg cfg1 hml k hkm
     · exact handleEach_frame lay fl pre todo k rest cfg c' hkr hok
 
 /-- `handle_subcommands` leaves every setting that is not the subcommand key or a subcommand section as it is -/
@@ -474,6 +482,9 @@ theorem argvCall_ok (lay : Mode → P → Cfg) (single : Bool) (mode : Mode) (h 
       · split at hok
         · cases hok
         · cases hok; exact key _
+      · split at hok
+        · cases hok
+        · cases hok; exact key _
       · cases hok
       · split at hok
         · cases hok
@@ -548,11 +559,15 @@ theorem handleEach_isSec (lay : Mode → P → Cfg) (fl : Flags) (pre : List Str
     rw [handleEach] at hok
     split at hok
     · simp only [hm, mergeLayer] at hok
-      cases hin : handle lay fl (pre ++ [m]) q (secOf (lookup m cfg)) with
-      | error e => simp [hin] at hok
-      | ok inner =>
-        simp only [hin] at hok
-        rw [handleEach_isSec lay fl pre todo k hm rest _ c' hok, isSecAt_writeBack]
+      cases hcs : checkSettings (pre ++ [m]) (lookup m cfg) with
+      | error e => simp [hcs] at hok
+      | ok u =>
+        simp only [hcs] at hok
+        cases hin : handle lay fl (pre ++ [m]) q (secOf (lookup m cfg)) with
+        | error e => simp [hin] at hok
+        | ok inner =>
+          simp only [hin] at hok
+          rw [handleEach_isSec lay fl pre todo k hm rest _ c' hok, isSecAt_writeBack]
     · exact handleEach_isSec lay fl pre todo k hm rest cfg c' hok
 
 /-- a config source keeps all its sections when it does not itself name a subcommand, or holds at most one section -/
@@ -664,38 +679,53 @@ theorem mergeLayer_err (mode : Mode) (L : Cfg) (n : String) (c : Cfg) (e : Err) 
       · cases h
     · cases h
 
+theorem checkSettings_err (key : List String) (o : Option Val) (e : Err) (h : checkSettings key o = .error e) :
+    e = .badsec key := by
+  cases o with
+  | none => simp [checkSettings] at h
+  | some v => cases v <;> simp_all [checkSettings]
+
 mutual
 theorem handle_nofail_P : ∀ (p : P) (lay : Mode → P → Cfg) (single : Bool) (mode : Mode) (pre : List String) (cfg : Cfg) (e : Err),
-    handle lay ⟨false, single, mode⟩ pre p cfg = .error e → e = .crash
+    handle lay ⟨false, single, mode⟩ pre p cfg = .error e → ∀ k, e ≠ .nosub k
   | .node i .none ch, lay, single, mode, pre, cfg, e, h => by rw [handle_leaf] at h; cases h
   | .node i (some hd) choices, lay, single, mode, pre, cfg, e, h => by
     rw [handle, getSub_nofail] at h
     simp only [] at h
     split at h
-    · cases h; rfl
+    · cases h; intro k hk; cases hk
     · exact handle_nofail_L choices lay single mode pre _ _ e h
 theorem handle_nofail_L : ∀ (choices : List (String × P)) (lay : Mode → P → Cfg) (single : Bool) (mode : Mode) (pre : List String)
     (todo : List String) (cfg : Cfg) (e : Err),
-    handleEach lay ⟨false, single, mode⟩ pre choices todo cfg = .error e → e = .crash
+    handleEach lay ⟨false, single, mode⟩ pre choices todo cfg = .error e → ∀ k, e ≠ .nosub k
   | [], lay, single, mode, pre, todo, cfg, e, h => by rw [handleEach] at h; cases h
   | (m, q) :: rest, lay, single, mode, pre, todo, cfg, e, h => by
     rw [handleEach] at h
     split at h
-    · cases hml : mergeLayer mode (lay mode q) m cfg with
+    · cases hcs : checkSettings (pre ++ [m]) (lookup m cfg) with
       | error e' =>
-        simp only [hml] at h
+        simp only [hcs] at h
         cases h
-        exact mergeLayer_err _ _ _ _ _ hml
-      | ok cfg1 =>
-        simp only [hml] at h
-        cases hin : handle lay ⟨false, single, mode⟩ (pre ++ [m]) q (secOf (lookup m cfg1)) with
+        rw [checkSettings_err _ _ _ hcs]
+        intro k hk; cases hk
+      | ok u =>
+        simp only [hcs] at h
+        cases hml : mergeLayer mode (lay mode q) m cfg with
         | error e' =>
-          simp only [hin] at h
+          simp only [hml] at h
           cases h
-          exact handle_nofail_P q lay single mode _ _ _ hin
-        | ok inner =>
-          simp only [hin] at h
-          exact handle_nofail_L rest lay single mode pre todo _ e h
+          rw [mergeLayer_err _ _ _ _ _ hml]
+          intro k hk; cases hk
+        | ok cfg1 =>
+          simp only [hml] at h
+          cases hin : handle lay ⟨false, single, mode⟩ (pre ++ [m]) q (secOf (lookup m cfg1)) with
+          | error e' =>
+            simp only [hin] at h
+            cases h
+            exact handle_nofail_P q lay single mode _ _ _ hin
+          | ok inner =>
+            simp only [hin] at h
+            exact handle_nofail_L rest lay single mode pre todo _ e h
     · exact handle_nofail_L rest lay single mode pre todo cfg e h
 end
 
@@ -743,8 +773,7 @@ theorem applyDefaultCfg_never_requires (single : Bool) (p : P) (tree cfg : Cfg) 
   | error e =>
     simp only [h1] at h
     cases h
-    have := handle_nofail_P p _ single .none [] _ _ h1
-    cases this
+    exact handle_nofail_P p _ single .none [] _ _ h1 key rfl
   | ok c1 =>
     simp only [h1, if_true] at h
     cases h2 : sweep single p c1 with
